@@ -563,7 +563,7 @@ func driveClient(run *sessionRun, pipelined bool, T time.Duration, r *rand.Rand)
 				full := encodeReq(k, &sReq{maj: 1, min: 4, bc: 1, writeOk: true, items: []sItem{{op: opActivate, payload: 0}}})
 				_, _ = c.Write(full[:len(full)-5])
 				closeAtEnd = true
-			case "extra-item", "bad-type", "bad-tag", "mutated", "hostile-length", "cred-type", "cut-tail":
+			case "extra-item", "bad-type", "bad-tag", "mutated", "hostile-length", "cred-type", "cut-tail", "any-tag":
 				_, _ = c.Write(malformedRequest(k, a.how))
 				if a.how == "hostile-length" {
 					closeAtEnd = true // the announced bytes never come: the peer leaves (otherwise a server without ReadTimeout rightly waits)
@@ -797,7 +797,7 @@ func genScript(r *rand.Rand, common sCfg, saConfigured bool, o scriptOpts) (sCfg
 			}
 			arrs = append(arrs, sArr{kind: 'R', req: q})
 		case x < 88 || (last && x < 50):
-			how := []string{"garbage", "wrongtype", "truncated-close", "extra-item", "bad-type", "bad-tag", "mutated", "hostile-length", "cred-type", "cut-tail", "cred-type", "cut-tail"}[r.Intn(12)]
+			how := []string{"garbage", "wrongtype", "truncated-close", "extra-item", "bad-type", "bad-tag", "mutated", "hostile-length", "cred-type", "cut-tail", "cred-type", "cut-tail", "any-tag", "any-tag"}[r.Intn(14)]
 			if o.allowStall && cfg.rt && r.Intn(3) == 0 {
 				how = "stall"
 			}
@@ -824,6 +824,20 @@ func malformedRequest(k int, how string) []byte {
 	setLen := func(b []byte, off int, l uint32) { binary.BigEndian.PutUint32(b[off+4:], l) }
 	extra := []byte{0x42, 0x00, 0x6a, 0x02, 0, 0, 0, 4, 0, 0, 0, 7, 0, 0, 0, 0}
 	switch how {
+	case "any-tag":
+		// an otherwise valid request in which one item's tag is ff ff ff - the library's INTERNAL marker for "any tag" in a
+		// schema (kmip:"-"), which no peer may use to pass for the Request Message, its header, an item, the operation ...
+		b := append([]byte(nil), full...)
+		cands := []int{0}
+		for _, n := range nodes {
+			cands = append(cands, n.Off)
+		}
+		off := cands[k%len(cands)]
+		if k%3 == 0 {
+			off = 0
+		}
+		b[off], b[off+1], b[off+2] = 0xff, 0xff, 0xff
+		return b
 	case "hostile-length":
 		// a string item the decoder reaches (Client Correlation Value) declaring a length at or near 2^32, nothing behind it
 		withCorr := encodeReq(k, &sReq{maj: 1, min: 4, bc: 1, corr: "abc", writeOk: true, items: []sItem{{op: opActivate, payload: 0}}})
